@@ -164,7 +164,13 @@ def match_shapes(a, b):
         fp = fingerprint(s)
         cand = [t for t in pool if fingerprint(t) == fp]
         # several shapes with identical positions: prefer the same parent, then the same triangle set
-        cand.sort(key=lambda t: (t["parent"] != s["parent"], tri_set(t["tris"]) != tri_set(s["tris"]), t["name"] != s["name"]))
+        # (shapes without vertices all have the same fingerprint: the references a shape carries - extra data, alpha,
+        # controller, collision, properties - and its position among its peers decide then)
+        refkeys = ("extra", "alpha_ref", "ctrl_ref", "coll_ref", "props")
+        cand.sort(key=lambda t: (t["parent"] != s["parent"], tri_set(t["tris"]) != tri_set(s["tris"]),
+                                 sum(1 for k in refkeys if bool(t.get(k)) != bool(s.get(k))),
+                                 t["name"] != s["name"],                      # sibling renaming may change names
+                                 abs(b["shapes"].index(t) - a["shapes"].index(s))))
         if cand:
             pairs.append((s, cand[0]))
             pool.remove(cand[0])
